@@ -1,5 +1,5 @@
 //! Generators: for each of the bundled signatures, traffic constructed to conform to it.
-//!   TCP : IPv4 / IPv6 (whatever the signature admits), hop counts 0..30, an MSS grid that contains divisors of the
+//!   TCP : IPv4 / IPv6 (whatever the signature admits), hop counts 0..30 (`NN-` signatures: every TTL 1..=NN), an MSS grid that contains divisors of the
 //!         window (and values below 100, and d+12 for timestamp layouts), window scales, both ECN encodings, ports,
 //!         addresses, IP ids; `*` windows from a grid of multiples.
 //!   HTTP: HTTP/1.0 and 1.1 messages, every subset of the `?` headers (sampled when there are many), header values
@@ -12,7 +12,9 @@ use crate::*;
 
 // ------------------------------------------------------------------ TCP
 #[derive(Clone)]
-pub struct Choice { pub v6: bool, pub hops: u8, pub mss: u16, pub ws: u8, pub ecn_ip: bool, pub payload: bool, pub id: u16, pub sport: u16, pub last: u8, pub win_any: u16 }
+pub struct Choice { pub v6: bool, pub hops: u8, pub mss: u16, pub ws: u8, pub ecn_ip: bool, pub payload: bool, pub id: u16, pub sport: u16, pub last: u8, pub win_any: u16,
+    /// observed TTL given outright (instead of being derived from `hops`); the Gallina decider conf_ttl still judges it
+    pub ttl: Option<u8> }
 
 fn has(s: &TSig, q: Quirk) -> bool { s.quirks.contains(&q) }
 
@@ -21,7 +23,7 @@ pub fn build_tcp(table: char, s: &TSig, c: &Choice) -> Option<Vec<u8>> {
     match s.version { IpVersion::V4 if c.v6 => return None, IpVersion::V6 if !c.v6 => return None, _ => {} }
     let init: i32 = match s.ittl { Ttl::Value(i) | Ttl::Guess(i) | Ttl::Bad(i) => i as i32, Ttl::Distance(a, b) => a as i32 + b as i32 };
     // `NN-`: any TTL from 1 to NN (the hop choice is stretched over the whole range); otherwise initial - hops
-    let ttl = if let Ttl::Bad(i) = s.ittl { if i == 0 { 0 } else { (i as i32 - (c.hops as i32 * i as i32) / 31).max(1) } } else { init.min(255) - c.hops as i32 };
+    let ttl = if let Some(t) = c.ttl { t as i32 } else if let Ttl::Bad(i) = s.ittl { if i == 0 { 0 } else { (i as i32 - (c.hops as i32 * i as i32) / 31).max(1) } } else { init.min(255) - c.hops as i32 };
     if ttl < 0 || ttl > 255 { return None; }
     let has_mss_opt = s.olayout.contains(&TcpOption::Mss);
     let mss: Option<u16> = if has_mss_opt { Some(s.mss.unwrap_or(c.mss)) } else { if s.mss.map(|m| m != 0).unwrap_or(false) { return None; } None };   // p0f: no MSS option reads as 0
@@ -147,20 +149,35 @@ fn tcp_cases(r: &mut Rng, tier: &Tier, out: &mut Vec<String>) {
             for v6 in versions(s) {
                 for m in &grid {
                     for hops in [0u8, 7, 30] {
-                        let c = Choice { v6, hops, mss: *m, ws: r.below(15) as u8, ecn_ip: false, payload: false, id: r.next() as u16, sport: 40000, last: 1, win_any: *r.pick(&[0u16, 1, 5840, 8192, 16384, 65535, 14600, 29200, 5792, 4380, 1024]) };
+                        let c = Choice { v6, hops, mss: *m, ws: r.below(15) as u8, ecn_ip: false, payload: false, id: r.next() as u16, sport: 40000, last: 1, win_any: *r.pick(&[0u16, 1, 5840, 8192, 16384, 65535, 14600, 29200, 5792, 4380, 1024]), ttl: None };
                         emit(&c, out);
                     }
                 }
+                // TTL sweep (both tiers, every seed): every observed TTL the signature's ittl form admits at which the
+                // extractor's abstraction can change shape. `NN-` admits every TTL 1..=NN (`0-`: 0), and inside that range
+                // ttl.rs switches between Distance (guessed hop count <= 30) and Value (hop count 31+: TTL 1, 33, 65..=97,
+                // 129..=224): all of them are swept. The other forms (`NN`, `NN+?`, `t+d`) admit initial - 0..=30 only
+                // (Spec/ConformSpec.v conf_ttl), which the loop below covers at 0, 1, 29, 30 and every third hop count.
+                if let Ttl::Bad(i) = s.ittl {
+                    let cap = if tier.thorough { 255 } else { 130 };    // quick: 1..=130 covers both shape changes and 32/33, 64/65, 128/129
+                    for t in (if i == 0 { 0 } else { 1 })..=i.min(cap) {
+                        let c = Choice { v6, hops: 0, mss: *r.pick(&grid), ws: r.below(15) as u8, ecn_ip: t % 2 == 1, payload: t % 3 == 0, id: r.next() as u16, sport: 2048 + t as u16, last: 1 + t % 250, win_any: r.next() as u16, ttl: Some(t) };
+                        emit(&c, out);
+                    }
+                    if i > cap { for t in [i - 1, i] { let c = Choice { v6, hops: 0, mss: *r.pick(&grid), ws: r.below(15) as u8, ecn_ip: false, payload: false, id: r.next() as u16, sport: 2048, last: 1, win_any: r.next() as u16, ttl: Some(t) }; emit(&c, out); } }
+                }
                 for hops in 0..=30u8 {
-                    let c = Choice { v6, hops, mss: *r.pick(&[1460u16, 1400, 536]), ws: r.below(15) as u8, ecn_ip: hops % 2 == 1, payload: hops % 3 == 0, id: r.next() as u16, sport: 1024 + hops as u16, last: hops, win_any: r.next() as u16 };
-                    if tier.thorough || hops % 3 == 0 || hops >= 29 { emit(&c, out); }
+                    let c = Choice { v6, hops, mss: *r.pick(&[1460u16, 1400, 536]), ws: r.below(15) as u8, ecn_ip: hops % 2 == 1, payload: hops % 3 == 0, id: r.next() as u16, sport: 1024 + hops as u16, last: hops, win_any: r.next() as u16, ttl: None };
+                    if tier.thorough || hops % 3 == 0 || hops <= 1 || hops >= 29 { emit(&c, out); }
                 }
             }
             // structured random
             for _ in 0..tier.scale(12, 120) {
                 let m = if r.chance(2, 3) { *r.pick(&grid) } else { r.range(1, 65535) as u16 };
                 let wa = match r.below(4) { 0 => r.next() as u16, 1 => ((r.range(1, 44) as u32 * m as u32).min(65535)) as u16, 2 => (r.range(1, 255) as u16).wrapping_mul(256), _ => *r.pick(&[0u16, 512, 1500, 2920, 3000, 4380, 5840, 65535]) };
-                let c = Choice { v6: *r.pick(&versions(s)), hops: r.below(31) as u8, mss: m, ws: r.below(15) as u8, ecn_ip: r.chance(1, 2), payload: r.chance(1, 2), id: r.next() as u16, sport: r.range(1, 65535) as u16, last: r.range(1, 254) as u8, win_any: wa };
+                let c = Choice { v6: *r.pick(&versions(s)), hops: r.below(31) as u8, mss: m, ws: r.below(15) as u8, ecn_ip: r.chance(1, 2), payload: r.chance(1, 2), id: r.next() as u16, sport: r.range(1, 65535) as u16, last: r.range(1, 254) as u8, win_any: wa, ttl: None };
+                // `NN-`: half of the random cases draw the observed TTL uniformly from 1..=NN instead of the stretched hop count
+                let c = match s.ittl { Ttl::Bad(i) if i > 0 && r.chance(1, 2) => Choice { ttl: Some(r.range(1, i as u64) as u8), ..c }, _ => c };
                 emit(&c, out);
             }
         }
